@@ -261,29 +261,29 @@ CallBuiltin(d, env, name, args, ctx) ==
          IF n < 2 THEN Bad ELSE StrOrErr(Flatten([i \in 1..n |-> ToStr(d, A(i))]))
     [] name = <<"s","t","a","r","t","s","-","w","i","t","h">> ->
          IF n # 2 THEN Bad ELSE LET a == ToStr(d, A(1)) b == ToStr(d, A(2)) IN
-         IF unkS(a) \/ unkS(b) THEN Err("unk") ELSE BoolV(StartsWithS(a, b))
+         IF unkS(a) \/ unkS(b) \/ ~ZSafe(a, b) THEN Err("unk") ELSE BoolV(StartsWithS(a, b))
     [] name = <<"c","o","n","t","a","i","n","s">> ->
          IF n # 2 THEN Bad ELSE LET a == ToStr(d, A(1)) b == ToStr(d, A(2)) IN
-         IF unkS(a) \/ unkS(b) THEN Err("unk") ELSE BoolV(ContainsS(a, b))
+         IF unkS(a) \/ unkS(b) \/ ~ZSafe(a, b) THEN Err("unk") ELSE BoolV(ContainsS(a, b))
     [] name = <<"s","u","b","s","t","r","i","n","g","-","b","e","f","o","r","e">> ->
          IF n # 2 THEN Bad ELSE LET a == ToStr(d, A(1)) b == ToStr(d, A(2)) IN
-         IF unkS(a) \/ unkS(b) THEN Err("unk") ELSE StrV(SubstringBefore(a, b))
+         IF unkS(a) \/ unkS(b) \/ ~ZSafe(a, b) THEN Err("unk") ELSE StrV(SubstringBefore(a, b))
     [] name = <<"s","u","b","s","t","r","i","n","g","-","a","f","t","e","r">> ->
          IF n # 2 THEN Bad ELSE LET a == ToStr(d, A(1)) b == ToStr(d, A(2)) IN
-         IF unkS(a) \/ unkS(b) THEN Err("unk") ELSE StrV(SubstringAfter(a, b))
+         IF unkS(a) \/ unkS(b) \/ ~ZSafe(a, b) THEN Err("unk") ELSE StrV(SubstringAfter(a, b))
     [] name = <<"s","u","b","s","t","r","i","n","g">> ->
          IF n \notin {2, 3} THEN Bad ELSE
          LET a == ToStr(d, A(1)) p == ToNum(d, A(2)) l == IF n = 3 THEN ToNum(d, A(3)) ELSE Nan IN
          \* (the upper bound round(p) + round(l) must be determined as well)
-         IF unkS(a) \/ IsUnk(p) \/ IsUnk(l) \/ IsUnk(Round(p)) \/ (n = 3 /\ IsUnk(Add(Round(p), Round(l)))) THEN Err("unk")
+         IF unkS(a) \/ HasZ(a) \/ IsUnk(p) \/ IsUnk(l) \/ IsUnk(Round(p)) \/ (n = 3 /\ IsUnk(Add(Round(p), Round(l)))) THEN Err("unk")
          ELSE StrV(Chs(Substring(a, p, n = 3, l)))
     [] name = <<"s","t","r","i","n","g","-","l","e","n","g","t","h">> ->
-         IF n > 1 THEN Bad ELSE IF unkS(S1) THEN Err("unk") ELSE NumV(NInt(Len(S1)))
+         IF n > 1 THEN Bad ELSE IF unkS(S1) THEN Err("unk") ELSE NumV(NInt(CharCount(S1)))
     [] name = <<"n","o","r","m","a","l","i","z","e","-","s","p","a","c","e">> ->
          IF n > 1 THEN Bad ELSE IF unkS(S1) THEN Err("unk") ELSE StrV(NormalizeSpace(S1))
     [] name = <<"t","r","a","n","s","l","a","t","e">> ->
          IF n # 3 THEN Bad ELSE LET a == ToStr(d, A(1)) b == ToStr(d, A(2)) c == ToStr(d, A(3)) IN
-         IF unkS(a) \/ unkS(b) \/ unkS(c) THEN Err("unk") ELSE StrV(Translate(a, b, c))
+         IF unkS(a) \/ unkS(b) \/ unkS(c) \/ ~ZSafe(a, b) \/ HasZ(c) THEN Err("unk") ELSE StrV(Translate(a, b, c))
     [] name = <<"b","o","o","l","e","a","n">> -> IF n # 1 THEN Bad ELSE ToBoolV(d, A(1))
     [] name = <<"n","o","t">> ->
          IF n # 1 THEN Bad ELSE LET b == ToBoolV(d, A(1)) IN IF IsErr(b) THEN b ELSE BoolV(~b.v)
